@@ -319,3 +319,131 @@ example :
     (Sys.run {} ops).wire = [] := by decide
 
 end Sshuttle.Mux
+
+/-! ## 5. Recognition of the server's synchronisation string -/
+
+namespace Sshuttle.Handshake
+
+/-- The property, on the byte stream alone: skip through the first NUL, skip through the
+second NUL, the next 12 bytes must be the init string. -/
+def spec (s : Bytes) : Bool × Bytes :=
+  match afterNul s with
+  | none => (false, [])
+  | some s1 =>
+    match afterNul s1 with
+    | none => (false, [])
+    | some s2 =>
+      if s2.take expected.length = expected then (true, s2.drop expected.length)
+      else (false, s2.take expected.length)
+
+def Outcome.flat : Outcome → Bool × Bytes
+  | .ok rest => (true, rest.flatten)
+  | .fatal got => (false, got)
+
+theorem expected_len : expected.length = 12 := by decide
+
+theorem afterNul_length (s t : Bytes) (h : afterNul s = some t) : t.length < s.length := by
+  induction s with
+  | nil => simp [afterNul] at h
+  | cons b r ih =>
+    unfold afterNul at h; split at h
+    · injection h with h; subst h; simp
+    · have := ih h; simp; omega
+
+/-- **Handshake segmentation independence.** Whatever the segmentation `r` of the incoming
+bytes (arbitrary leading noise, NULs and sync string split anywhere across reads), the
+client's verdict, the bytes it reports on failure and the bytes it leaves unread are a
+function of the concatenated stream only. -/
+theorem C07_handshake (r : Reader) : (handshake r).flat = spec r.flatten := by
+  unfold handshake spec
+  have htot : total r = r.flatten.length := by
+    unfold total; rw [List.length_flatten]
+  simp only [htot]
+  have hnil : skipToNul (r.flatten.length + 1) [] = none := by
+    unfold skipToNul read norm; rfl
+  have hexp : ([] : Bytes) ≠ expected := by decide
+  have hre : ∀ r2 : Reader,
+      (match readExactly (expected.length + 1) r2 expected.length [] with
+        | (got, r3) => if got = expected then Outcome.ok r3 else Outcome.fatal got).flat =
+      if r2.flatten.take expected.length = expected then (true, r2.flatten.drop expected.length)
+      else (false, r2.flatten.take expected.length) := by
+    intro r2
+    obtain ⟨g1, g2⟩ := readExactly_spec (expected.length + 1) r2 expected.length []
+      (by simp) (by simp)
+    simp only [List.nil_append] at g1 g2
+    generalize readExactly (expected.length + 1) r2 expected.length [] = res at g1 g2
+    obtain ⟨got, r3⟩ := res
+    simp only at g1 g2 ⊢
+    subst g2
+    split
+    next h =>
+      simp only [Outcome.flat]
+      have : r3.flatten = r2.flatten.drop expected.length := by
+        have e := List.take_append_drop expected.length r2.flatten
+        exact List.append_cancel_left (g1.trans e.symm)
+      rw [this]
+    · simp [Outcome.flat]
+  have h1 := skipToNul_spec (r.flatten.length + 1) r (by omega)
+  cases hs1 : skipToNul (r.flatten.length + 1) r with
+  | none =>
+    rw [hs1] at h1; simp only [Option.map_none] at h1
+    rw [← h1]
+    simp only [Option.getD_none, hnil]
+    have := hre []
+    simp only [List.flatten_nil, List.take_nil, List.drop_nil] at this
+    rw [this]; simp [hexp]
+  | some r1 =>
+    rw [hs1] at h1; simp only [Option.map_some] at h1
+    rw [← h1]
+    simp only [Option.getD_some]
+    have hlt := afterNul_length _ _ h1.symm
+    have h2 := skipToNul_spec (r.flatten.length + 1) r1 (by omega)
+    cases hs2 : skipToNul (r.flatten.length + 1) r1 with
+    | none =>
+      rw [hs2] at h2; simp only [Option.map_none] at h2
+      rw [← h2]
+      simp only [Option.getD_none]
+      have := hre []
+      simp only [List.flatten_nil, List.take_nil, List.drop_nil] at this
+      rw [this]; simp [hexp]
+    | some r2 =>
+      rw [hs2] at h2; simp only [Option.map_some] at h2
+      rw [← h2]
+      simp only [Option.getD_some]
+      exact hre r2
+
+/-- In the wording of the property: two segmentations of the same bytes are recognised
+identically. -/
+theorem C07_handshake_cut_independent (r₁ r₂ : Reader) (h : r₁.flatten = r₂.flatten) :
+    (handshake r₁).flat = (handshake r₂).flat := by
+  rw [C07_handshake, C07_handshake, h]
+
+/-- The server's 14 bytes are accepted under the segmentation that the pre-repair code
+rejected (6 + 8), and under every other one. -/
+example : (handshake [[0, 0, 83, 83, 72, 85], [84, 84, 76, 69, 48, 48, 48, 49]]).flat = (true, []) := by
+  decide
+
+theorem C07_handshake_accepts_sync (noise1 noise2 tail : Bytes) (r : Reader)
+    (hn1 : afterNul (noise1 ++ [0]) = some []) (hn2 : afterNul (noise2 ++ [0]) = some [])
+    (h : r.flatten = noise1 ++ [0] ++ noise2 ++ [0] ++ expected ++ tail) :
+    (handshake r).flat = (true, tail) := by
+  have hap : ∀ (a b : Bytes), afterNul a = some [] → afterNul (a ++ b) = some b := by
+    intro a b
+    induction a with
+    | nil => simp [afterNul]
+    | cons x xs ih =>
+      intro hx
+      simp only [List.cons_append, afterNul] at hx ⊢
+      split
+      next h0 => simp [h0] at hx; simp [hx]
+      next h0 => simp [h0] at hx; exact ih hx
+  rw [C07_handshake, h]
+  unfold spec
+  have e1 : noise1 ++ [0] ++ noise2 ++ [0] ++ expected ++ tail =
+      (noise1 ++ [0]) ++ ((noise2 ++ [0]) ++ (expected ++ tail)) := by simp
+  rw [e1, hap _ _ hn1]
+  simp only
+  rw [hap _ _ hn2]
+  simp
+
+end Sshuttle.Handshake
